@@ -10,13 +10,14 @@ PROPERTY = {
     "title": "shard of a token and shard-aware source ports match ScyllaDB's algorithm",
     "level": "proof",
     "level_text": "Deductive proof, all inputs: Verus proves on the extracted real functions that shard_of equals ScyllaDB's formula in mathematical integers and is < nr_shards, that shard_of_source_port is port mod n, and that calculate_lowest_port returns min{p in [lo,hi] | p mod n = shard} or None iff that set is empty (unbounded n, lo, hi). Kani/CBMC+z3 re-proves shard_of's in-place contract on the compiled code for all tokens and shard counts, one complete harness per msb_ignore 0..63.",
-    "level_note": 'Trusted: Verus/Z3, Kani/CBMC/z3; vstd specs of integer ops; RangeInclusive::start/end and bool::then_some contracts; msb_ignore<64 taken as precondition. Not yet covered: the random port draw / port iterator (rand + StepBy adapters).',
+    "level_note": 'Trusted: Verus/Z3, Kani/CBMC/z3; vstd specs of integer ops; RangeInclusive::start/end and bool::then_some contracts; msb_ignore<64 taken as precondition. The random port draw is proved against trusted contracts of the step_by / ExactSizeIterator::len / nth and the random_range of rand (arithmetic progression, its length, any index below it). Not covered: the port ITERATOR (iter_source_ports_for_shard_from_range: chained StepBy adapters).',
     "technique": 'contract-based deductive verification: Verus contracts on extracted functions + Kani function contracts (proof_for_contract)',
     "timeout": 300,
     "verus": [
         Unit("c11_sharding", "C11", "c11_sharding.vrs", desc={
             "shard_of": "msb_ignore < 64 => r == floor((((t+2^63) mod 2^(64-m)) * 2^m) * n / 2^64) and r < n (mathematical integers, all inputs)",
             "shard_of_source_port": "r == port mod n and r < n",
+            "draw_source_port_for_shard_from_range": "for ANY outcome of the random generator: the drawn port lies in the range and port mod n == shard; None only when no port of the range maps to the shard; the two assert!s and the unwrap() inside cannot fire (std's step_by / ExactSizeIterator::len / nth and rand's random_range are trusted contracts: arithmetic progression, its length, any index below it)",
             "calculate_lowest_port_for_shard_in_range": "Some(p): p = min{q in [lo,hi] | q mod n = shard}; None: that set is empty (all n, shard < n, lo <= hi)",
         }),
     ],
@@ -42,5 +43,5 @@ PROPERTY = {
     "assumptions": [
         "Sharder.msb_ignore < 64 is a precondition (the property quantifies 0..=63); ShardInfo::try_from does not enforce it (DESIGN §6 O2)",
     ],
-    "not_covered": [],
+    "not_covered": ["iter_source_ports_for_shard_from_range (chained StepBy iterator adapters); draw_source_port_for_shard (expect on the ephemeral range)"],
 }
